@@ -29,6 +29,8 @@ from .tlaparse import parse_value, to_json
 from .vclock import VirtualClock, run_coroutine
 
 OP_TYPE = "verif-clientloop"
+OP_TYPE_RC = "verif-clientloop-completion"  # same scripted request, runner object with completed / percent_completed
+NO_ELEM = {"use": False, "cap": 0, "clients": [1], "j": 1, "i": 0}
 MAX_REQUESTS = 400  # hard cap per run (a loop that does not terminate is cancelled and reported as 'capped')
 EXACT_EPS = 1e-9
 FINE = 1000  # finer grid for tick-exact cases whose run left the tick grid
@@ -60,6 +62,29 @@ def ensure_rally_home():
 # ---------------------------------------------------------------------------------------------------
 async def _runner(es, params):  # registered with runner.register_runner(OP_TYPE, _runner, async_runner=True)
     return await es.scripted_request(params)
+
+
+class CompletionRunner:
+    """A runner that exposes Rally's optional completion API (like wait-for-transform / recovery style runners):
+    `completed` is False until the cfg.rc-th call of the current run, `percent_completed` stays None."""
+
+    @property
+    def completed(self):
+        run = _RUN
+        if run is None:
+            return False
+        rc = run.cfg.get("rc", 0)
+        return bool(rc > 0 and len(run.log) >= rc)
+
+    @property
+    def percent_completed(self):
+        return None
+
+    async def __call__(self, es, params):
+        return await es.scripted_request(params)
+
+    def __repr__(self):
+        return "verif-completion-runner"
 
 
 def _make_fake_client_class():
@@ -100,6 +125,9 @@ def _make_fake_client_class():
                 return {"weight": step["w"], "unit": run.cfg["runit"]}
             raise _error(out, k)
 
+        async def close(self):
+            return None
+
     return FakeClient
 
 
@@ -120,16 +148,23 @@ def _error(kind, n):
 
 
 class _Run:
-    def __init__(self, case):
+    def __init__(self, case, clock=None):
         self.case = case
         self.cfg = case["cfg"]
+        self.cfg.setdefault("rc", 0)
         self.tps = self.cfg["tps"]
         self.script = case["script"]
         self.incs = list(case.get("incs", []))
         self.default_step = {"d1": 0, "svc": max(1, self.tps // 4), "d2": 0, "out": "ok", "w": 1, "ext": False}
         self.default_inc = max(1, self.tps // 4)
-        self.clock = VirtualClock()
-        self.clock.now = case["t0"] / self.tps
+        if clock is None:
+            self.clock = VirtualClock()
+            self.clock.now = case["t0"] / self.tps
+        else:
+            self.clock = clock  # several clients of one schedule element share the clock (and the sampler)
+        self.shared = clock is not None
+        self.pending = []  # shared sampler: samples added by this client's executor since the last yield
+        self.es_client_id = None
         self.log = []
         self.used = []
         self.yields = []  # dict(tuple fields, at, samples_before (samples added since the previous yield), expo calls)
@@ -140,6 +175,12 @@ class _Run:
         self.capped = False
         self.sampler = None
         self.tail_samples = []
+
+    def take_samples(self):
+        if self.shared:
+            res, self.pending = self.pending, []
+            return res
+        return self.sampler.samples
 
 
 class ObservedSchedule:
@@ -155,9 +196,11 @@ class ObservedSchedule:
         run = self._run
 
         async def observed():
+            if run.shared:
+                run.sampler.by_task[asyncio.current_task()] = run
             async for tup in gen:
                 run.yields.append(
-                    {"tuple": tup, "at": run.clock.now, "samples_before": run.sampler.samples, "expo": run.expo}
+                    {"tuple": tup, "at": run.clock.now, "samples_before": run.take_samples(), "expo": run.expo}
                 )
                 run.expo = []
                 yield tup
@@ -222,7 +265,7 @@ def build_task(case):
     else:
         # without a target throughput the built-in schedules all run unthrottled
         schedule = [None, "deterministic", "poisson"][sn]
-    op = track.Operation(name="op-" + cfg["task"], operation_type=OP_TYPE, params={})
+    op = track.Operation(name="op-" + cfg["task"], operation_type=OP_TYPE_RC if cfg.get("rc", 0) > 0 else OP_TYPE, params={})
     return track.Task(name=cfg["task"], operation=op, clients=cfg["clients"], schedule=schedule, params=params, **kw)
 
 
@@ -243,6 +286,7 @@ def _install_runner():
         from esrally.driver import runner
 
         runner.register_runner(OP_TYPE, _runner, async_runner=True)
+        runner.register_runner(OP_TYPE_RC, CompletionRunner(), async_runner=True)
         _registered = True
 
 
@@ -305,6 +349,7 @@ def execute(case):
 
     _install_runner()
     cfg = case["cfg"]
+    cfg.setdefault("rc", 0)
     tps = cfg["tps"]
     run = _Run(case)
     _RUN = run
@@ -416,6 +461,7 @@ def _project(case, run, aborted, mult):
         "exact": exact,
         "tol": 0 if exact else APPROX_TOL,
         "cfg": cfg,
+        "elem": dict(case.get("elem") or NO_ELEM),
         "t0": case["t0"] * mult,
         "events": events,
         "end": {"n": nlog, "ny": ny, "aborted": bool(aborted), "capped": bool(run.capped), "stray": len(stray)},
